@@ -193,6 +193,56 @@ CHECKS = {
              'bearing rows.',
         note='real process death and real SQLite recovery; a server DBMS '
              'rolling back on disconnect is assumed equivalent'),
+    'C14': dict(
+        engine='surface-enumeration', category='exploration', design='4.C14',
+        technique='exhaustive enumeration of (route, method, microversion) and '
+                  'of a hand-transcribed versioned-feature table at all 40 '
+                  'versions, plus Hypothesis-generated requests replayed across '
+                  'versions; oracle = documented availability / feature window '
+                  'and the version + Vary response headers',
+        text='Every route x 7 methods x {1.0..1.39, latest, none, out-of-range, '
+             'malformed} is sent on a fixed fixture and judged against a '
+             'hand-written availability table; ~45 versioned features are '
+             'probed at all 40 versions (present <=> first <= v <= last); every '
+             'response with an accepted version must carry the applied version '
+             'and Vary. Exhaustive over the enumerated matrix; the fixture state '
+             'and request bodies are fixed.',
+        note='tables transcribed from rest_api_version_history.rst and the API '
+             'reference; admin caller; SQLite'),
+    'C15': dict(
+        engine='request-mutator', category='exploration', design='4.C15',
+        technique='grammar-based mutation fuzzing of valid requests (Hypothesis '
+                  'strategies, structured mutations of JSON/body/header/path/'
+                  'query/method) in generated states; oracle = status < 500, '
+                  'well-formed error document, unchanged raw dump for '
+                  '400/404/405/406/415; failures bucketed by root cause from '
+                  'the FaultWrapper log record',
+        text='Valid requests for every route (built for generated states incl. '
+             'nested sharing providers and over-committed inventories) receive '
+             '1-4 mutations from a grammar and are sent through the full '
+             'pipeline; any 5xx / escaped exception / malformed error body / '
+             'state change on a client error is a violation, collected per '
+             'root-cause bucket. Bounded random exploration.',
+        note='integers within 64 bits; bodies of a few kB; atheris not used '
+             '(>= 5 ms per request in jsonschema leaves no coverage-guidance '
+             'throughput, see DESIGN.md)'),
+    'C16': dict(
+        engine='surface-enumeration', category='exploration', design='4.C16',
+        technique='exhaustive enumeration of (operation, caller class, '
+                  'existing/missing entity) and of single-rule policy overrides '
+                  '("!" and "@") over the whole routing table; oracle = '
+                  'expected status hard-coded from the property statement, '
+                  'raw-dump equality and no-leak check of refused responses',
+        text='Every (route, method) x 7 caller classes x {existing, missing '
+             'entity} on a populated fixture, plus every documented policy rule '
+             'overridden to "!" and to "@" (re-loaded enforcer), plus the '
+             'no-credentials row under auth_strategy=keystone: unauthorised '
+             'callers get 401/403, never 2xx, the body leaks no stored '
+             'identifier, the raw dump is unchanged, and an override changes '
+             'exactly the operations documented for that rule. Exhaustive over '
+             'the enumerated matrix at microversion 1.39.',
+        note='noauth2 middleware supplies caller classes; keystone token '
+             'validation needs a server and is not exercised'),
 }
 
 NOT_APPLICABLE = {}
@@ -256,6 +306,15 @@ def main():
              'serves_properties': ['C17', 'C18'],
              'kind_free_text': 'statement-level fault injection via dialect '
                                'events; crash points via fork + os._exit'},
+            {'name': 'surface-enumeration', 'path': 'pv/props/c14.py',
+             'serves_properties': ['C14', 'C16'],
+             'kind_free_text': 'exhaustive enumeration of routes x methods x '
+                               'microversions x caller classes x policy '
+                               'overrides on a fixed fixture'},
+            {'name': 'request-mutator', 'path': 'pv/fuzz.py',
+             'serves_properties': ['C15'],
+             'kind_free_text': 'grammar-based structured mutation of valid '
+                               'requests drawn with Hypothesis'},
         ],
         'checks': checks,
         'not_applicable': na,
